@@ -3,7 +3,13 @@
 the harness process and plainly in /venv/bin/python for replays."""
 
 PRELUDE = r'''
-import importlib, sys, fractions, decimal, math
+import importlib, sys, fractions, decimal, math, os
+if os.environ.get("VERIF_NATIVE_SO") and "basilisp._lang" not in sys.modules:
+    # use the native module freshly built from /repo/rust (the installed .so may predate the current sources)
+    import importlib.machinery, importlib.util
+    _ld = importlib.machinery.ExtensionFileLoader("basilisp._lang", os.environ["VERIF_NATIVE_SO"])
+    _sp = importlib.util.spec_from_loader("basilisp._lang", _ld)
+    _md = importlib.util.module_from_spec(_sp); sys.modules["basilisp._lang"] = _md; _ld.exec_module(_md)
 from typing import *
 import basilisp.main as _bm
 _bm.init()
